@@ -1,19 +1,22 @@
 #!/bin/bash
 # usage: bin/confirm_mut.sh <PROP> <i>
-# Confirms a sub-agent's change in its scratch worktree /tmp/wt/<PROP>: patch applies to a clean HEAD, the pinned suite
-# still passes with it, the demonstration fails with it and passes without it. On success copies it to /verif/seeded/<PROP>-<i>/.
+# Confirms a sub-agent's change (/tmp/wt/<PROP>/_mut/<i>) in a private scratch worktree of /repo (the agent's own worktree is only
+# read): patch applies to a clean HEAD, the pinned suite still passes with it, the demonstration fails with it and passes
+# without it. On success copies it to /verif/seeded/<PROP>-<i>/.
 set -u
-PROP=$1; I=$2; WT=/tmp/wt/$PROP; M=$WT/_mut/$I
-LOG=/tmp/wt/confirm-$PROP-$I.log; : > $LOG
+PROP=$1; I=$2; SRC=/tmp/wt/$PROP/_mut/$I
+WT=$(mktemp -d /tmp/jv-confirm.XXXXXX); LOG=/tmp/wt/confirm-$PROP-$I.log; : > $LOG
+trap 'git -C /repo worktree remove --force "$WT" >/dev/null 2>&1; rm -rf "$WT"' EXIT
+git -C /repo worktree add -q --detach "$WT" HEAD || exit 2
+mkdir -p $WT/_mut; cp -r $SRC $WT/_mut/$I; M=$WT/_mut/$I; rm -f $M/demo
 cd $WT || exit 2
-git checkout -q -- . ; git apply --check $M/patch.diff >>$LOG 2>&1 || { echo "$PROP-$I: patch does not apply"; exit 1; }
+git apply --check $M/patch.diff >>$LOG 2>&1 || { echo "$PROP-$I: patch does not apply"; exit 1; }
 git apply $M/patch.diff
-( cd tests && make -j8 test >>$LOG 2>&1 && ./test > $WT/_mut/$I/suite.out 2>&1 ); 
-NPASS=$(grep -c "PASS" $WT/_mut/$I/suite.out); NFAIL=$(grep -c "FAIL" $WT/_mut/$I/suite.out)
+( cd tests && make -j8 test >>$LOG 2>&1 && ./test > $M/suite.out 2>&1 );
+NPASS=$(grep -c "PASS" $M/suite.out); NFAIL=$(grep -c "FAIL" $M/suite.out)
 ( cd $M && bash ./build.sh >>$LOG 2>&1 && ./demo > demo.mut.out 2>&1 ); RC_MUT=$?
 git checkout -q -- .
 ( cd $M && bash ./build.sh >>$LOG 2>&1 && ./demo > demo.head.out 2>&1 ); RC_HEAD=$?
-( cd tests && rm -rf bin test pairing.a ) 2>/dev/null
 echo "$PROP-$I: suite PASS=$NPASS FAIL=$NFAIL demo_with_change_rc=$RC_MUT demo_on_head_rc=$RC_HEAD"
 if [ "$NFAIL" = 0 ] && [ "$NPASS" -ge 60 ] && [ $RC_MUT != 0 ] && [ $RC_HEAD = 0 ]; then
   D=/verif/seeded/$PROP-$I; mkdir -p $D; cp $M/patch.diff $D/; cp $M/demo.cpp $M/build.sh $D/ 2>/dev/null; cp $M/README.md $D/AGENT_README.md 2>/dev/null
